@@ -263,11 +263,11 @@ fn shard(seed: u64, shard: u64, n: u64) -> Tally {
     let mut t = Tally::new();
     for i in 0..n {
         let mut r = Rng::keyed(seed, "C11", "parent", shard, i);
-        let mut cfg = gen_cfg(&mut r);
-        cfg.fold = false;
+        // every option combination, form bodies included: with folding on, the header block that is signed
+        // (content-type, content-length, …) must still be the one that arrived
+        let cfg = gen_cfg(&mut r);
         let o = GenOpts {
             max_extra_headers: 8,
-            allow_form: false,
             ..Default::default()
         };
         let mut l = gen_logical(&mut r, &cfg, &o);
